@@ -108,6 +108,56 @@ def tableValues {ρ : Type} (outer : α → α) (g : ρ → α) (dflt : ρ) (t :
   let ids := s.map (·.1)
   (panelMap ids).map fun e => (e.id, outer (trajectory (fun i => g ((s.getD i (0, dflt)).2)) e.rows))
 
+/-! ## the table changes between two evaluations
+
+`database.data` is a public attribute: rows can be appended, dropped, relabelled or reordered
+after `panel()` was called.  `Database.individualMap` then describes the *previous* table.
+`calculator.calculate_function_and_derivatives` (behind `Expression.get_value_c` /
+`get_value_and_derivatives`), `BIOGEME.__init__` / `calculate_likelihood` (`_prepare_database_for_formula`)
+and `BIOGEME.simulate` therefore call `build_panel_map()` before handing the map to the engine. -/
+
+/-- the database as far as panel data are concerned: the table and the map *as last built* -/
+structure DbState (ρ : Type) where
+  table : List (Int × ρ)
+  map : List Entry
+
+/-- direct assignment to `database.data`: the map is not touched -/
+def DbState.setTable {ρ : Type} (st : DbState ρ) (t : List (Int × ρ)) : DbState ρ := ⟨t, st.map⟩
+
+/-- `build_panel_map`: sort the table by id, renumber the rows, rebuild the map -/
+def DbState.rebuild {ρ : Type} (st : DbState ρ) : DbState ρ :=
+  let s := sortTable st.table
+  ⟨s, panelMap (s.map (·.1))⟩
+
+/-- the engine on the map it is handed: one value per entry, product over the rows `first … last` -/
+def DbState.engineValues {ρ : Type} (outer : α → α) (g : ρ → α) (dflt : ρ) (st : DbState ρ) : List (Int × α) :=
+  st.map.map fun e => (e.id, outer (trajectory (fun i => g ((st.table.getD i (0, dflt)).2)) e.rows))
+
+/-- one evaluation (`get_value_c`, `simulate`, …): rebuild the map, then run the engine; returns the
+new state of the database and the values -/
+def DbState.evaluate {ρ : Type} (outer : α → α) (g : ρ → α) (dflt : ρ) (st : DbState ρ) :
+    DbState ρ × List (Int × α) :=
+  let st' := st.rebuild
+  (st', st'.engineValues outer g dflt)
+
+/-- a history: tables assigned to `database.data`, each followed by one evaluation -/
+def DbState.history {ρ : Type} (outer : α → α) (g : ρ → α) (dflt : ρ) :
+    DbState ρ → List (List (Int × ρ)) → List (List Entry × List (Int × α))
+  | _, [] => []
+  | st, t :: ts =>
+    let r := (st.setTable t).evaluate outer g dflt
+    (r.1.map, r.2) :: DbState.history outer g dflt r.1 ts
+
+/-! ## scaled quantities -/
+
+/-- `BIOGEME.calculate_likelihood(scaled=True)` and every field returned by
+`calculate_likelihood_and_derivatives(scaled=True)`: the unscaled quantity divided by
+`Database.get_sample_size()` (on panel data the number of rows of the map) -/
+def scaledBy (s : List Int) (v : α) : α := v / nat (sampleSize s)
+
+/-- log likelihood = sum of the per-individual values -/
+def logLikelihood (vals : List α) : α := sum vals
+
 /-! ## placement rule -/
 
 /-- the small formula family of this property -/
@@ -140,5 +190,55 @@ def countTraj : PExpr → Nat
   | .traj e => 1 + countTraj e
   | .mc e => countTraj e
   | _ => 0
+
+/-- `embed_expression('PanelLikelihoodTrajectory')`: the node itself or one below it -/
+def hasTraj : PExpr → Bool
+  | .un _ e => hasTraj e
+  | .bin _ l r => hasTraj l || hasTraj r
+  | .traj _ => true
+  | .mc e => hasTraj e
+  | _ => false
+
+/-- `embed_expression('bioDraws')` -/
+def hasDraws : PExpr → Bool
+  | .draws _ => true
+  | .un _ e => hasDraws e
+  | .bin _ l r => hasDraws l || hasDraws r
+  | .traj e => hasDraws e
+  | .mc e => hasDraws e
+  | _ => false
+
+/-- `embed_expression('MonteCarlo')` -/
+def hasMC : PExpr → Bool
+  | .un _ e => hasMC e
+  | .bin _ l r => hasMC l || hasMC r
+  | .traj e => hasMC e
+  | .mc _ => true
+  | _ => false
+
+/-- `Expression.check_draws`: draws that are not below a `MonteCarlo` -/
+def checkDraws : PExpr → List String
+  | .draws n => [n]
+  | .un _ e => checkDraws e
+  | .bin _ l r => checkDraws l ++ checkDraws r
+  | .traj e => checkDraws e
+  | .mc _ => []
+  | _ => []
+
+/-- number of errors listed by `Expression.audit(database)` on a *panel* database whose table has
+all the variables of the formula: only `MonteCarlo.audit` contributes - its argument must contain
+a `PanelLikelihoodTrajectory`, must contain a `bioDraws`, must not contain a `MonteCarlo`
+(`PanelLikelihoodTrajectory.audit` complains on non-panel data only) -/
+def auditErrors : PExpr → Nat
+  | .un _ e => auditErrors e
+  | .bin _ l r => auditErrors l + auditErrors r
+  | .traj e => auditErrors e
+  | .mc e => auditErrors e + (if hasTraj e then 0 else 1) + (if hasDraws e then 0 else 1)
+      + (if hasMC e then 1 else 0)
+  | _ => 0
+
+/-- `BIOGEME(database, formula)` on a panel database builds the object (single formula) -/
+def initAccepts (e : PExpr) : Bool :=
+  (checkPanelTrajectory e).isEmpty && (checkDraws e).isEmpty && auditErrors e == 0
 
 end Panel
